@@ -124,9 +124,6 @@ pub fn parse_choice(
     }
 
     let mut body = Vec::new();
-    // Once we absorb a same-level gather, everything that follows at our indent
-    // (choices, text, etc.) becomes part of this choice's body continuation.
-    let mut absorbed_gather = false;
 
     for node in choice_text.inline_body_nodes.clone() {
         body.push(node);
@@ -135,67 +132,37 @@ pub fn parse_choice(
         body.push(Node::Divert(divert));
     }
 
+    // Everything up to the next choice or gather of this weave level (or of an outer one)
+    // belongs to the choice, however the lines are indented.
     while *line_index < lines.len() {
         let body_line = &lines[*line_index];
         let body_trimmed = body_line.content.trim();
-        let body_trimmed_start = body_line.content.trim_start();
         // Terminate on knot/stitch headers
         if super::parse_header(body_line.content).is_some() {
             break;
         }
 
-        // A choice line whose marker nesting level is <= ours starts a sibling choice
-        // block, even if it's indented deeper (Ink weave semantics).
-        if !absorbed_gather
-            && let Some(body_choice_level) = choice_marker_nesting_level(body_trimmed_start)
+        // A closing brace that the body did not open ends the block the choice stands in.
+        if super::conditional::closing_brace_tail(body_trimmed).is_some() {
+            break;
+        }
+
+        // A choice line whose marker nesting level is <= ours starts a sibling choice.
+        if let Some(body_choice_level) = choice_marker_nesting_level(body_trimmed)
             && body_choice_level <= nesting_level
         {
             break;
         }
 
-        // Blank lines should not prematurely terminate a choice body when the next
-        // non-blank line is still indented as body content.
-        if body_trimmed.is_empty() {
-            let mut lookahead = *line_index + 1;
-            while lookahead < lines.len() && lines[lookahead].content.trim().is_empty() {
-                lookahead += 1;
-            }
-            if lookahead < lines.len()
-                && super::parse_header(lines[lookahead].content).is_none()
-                && lines[lookahead].indent > choice_indent
-            {
-                let statement = parse_stmt(lines, line_index, true)?;
-                if let ParsedStatement::Nodes(mut nodes) = statement {
-                    body.append(&mut nodes)
-                }
-                continue;
-            }
-        }
-
+        // So does a gather (or, inside a conditional block, the `-` of the next branch).
         let gather_level = gather_nesting_level(body_trimmed);
-
-        // A gather whose nesting level matches ours AND which is indented deeper than the
-        // choice itself is the "end of sub-choices / start of continuation" boundary for
-        // this weave level.  Absorb it so the emitter sees it as a GatherPoint separating
-        // the inner choice block from the post-gather continuation.
-        if gather_level == nesting_level && body_line.indent > choice_indent {
-            let statement = parse_stmt(lines, line_index, true)?;
-            if let ParsedStatement::Nodes(mut nodes) = statement {
-                body.append(&mut nodes)
-            }
-            absorbed_gather = true;
-            continue;
-        }
-
-        // A gather at or shallower than our choice indent terminates the choice body.
-        if gather_level > 0 && body_line.indent <= choice_indent {
+        if gather_level > 0 && gather_level <= nesting_level {
             break;
         }
 
-        // Non-gather line at or shallower than our indent:
-        // - If we haven't absorbed a same-level gather yet, this is a sibling — stop.
-        // - If we have absorbed a gather, it's the post-gather continuation — include it.
-        if gather_level == 0 && body_line.indent <= choice_indent && !absorbed_gather {
+        // A declaration is global wherever it stands, but a choice body has no way to hand it
+        // on: one that is not indented into the body is left to the enclosing level.
+        if body_line.indent <= choice_indent && is_global_declaration(body_trimmed) {
             break;
         }
 
@@ -231,6 +198,12 @@ pub fn parse_choice(
         nesting_level,
         body_divert_is_inline: choice_text.inline_target.is_some(),
     })]))
+}
+
+fn is_global_declaration(trimmed: &str) -> bool {
+    ["VAR ", "CONST ", "LIST ", "EXTERNAL "]
+        .iter()
+        .any(|keyword| trimmed.starts_with(keyword))
 }
 
 fn choice_marker_nesting_level(trimmed_start: &str) -> Option<usize> {
